@@ -20,7 +20,7 @@ CLAIMED = {
 
 CLAIMED['C04'] = dict(
     text='Kernel-checked refinement: Props.C04.exec_refines (Impl.serverExecute = RegisterFile.step for every request, '
-         'layout and state) and run_refines (every history, by induction), reset_refines + run_refines_with_resets (histories in which the application calls ModbusSlaveContext.reset() anywhere), frame-rule and read-your-writes corollaries on the '
+         'layout and state) and run_refines (every history, by induction), reset_refines + run_refines_with_resets (histories in which the application calls ModbusSlaveContext.reset() anywhere), frame-rule, read-your-writes (readCells_after_write: reading back a written range returns exactly the written values), writeCells_commute_disjoint, writeCells_overwrite, readCells_after_disjoint_write corollaries on the '
          'spec; the model is compared with decode -> handler.execute of the real code on random histories (with application-level ModbusSlaveContext.reset() steps in between) each run, and the real '
          'responses/table contents with the Lean register-file spec.',
     design='6/C04', technique='Lean 4 refinement proof (server execute = register file) + differential correspondence',
